@@ -232,4 +232,65 @@ theorem ensureEqualDims_valueError_iff (s0 : Shape) (rest : List Shape) (dim : O
     simp [hp0, hps, hall]
 
 
+/-! ### the loop over `to_check` -/
+
+theorem allOk_cons (f : Shape → Except Err Shape) (s : Shape) (ss : List Shape) :
+    allOk f (s :: ss) = match f s with
+      | .error e => .error e
+      | .ok t => match allOk f ss with
+        | .ok ts => .ok (t :: ts)
+        | .error e => .error e := rfl
+
+/-- the call succeeds exactly when every array is accepted, and returns the normalised shapes in order -/
+theorem allOk_ok_iff (f : Shape → Except Err Shape) (ss ts : List Shape) :
+    allOk f ss = .ok ts ↔ ts.length = ss.length ∧ ∀ p ∈ ss.zip ts, f p.1 = .ok p.2 := by
+  induction ss generalizing ts with
+  | nil =>
+    constructor
+    · intro h; cases h; simp
+    · rintro ⟨h, _⟩
+      have : ts = [] := List.eq_nil_of_length_eq_zero h
+      subst this; rfl
+  | cons s ss ih =>
+    rw [allOk_cons]
+    constructor
+    · intro h
+      split at h
+      · cases h
+      · rename_i t ht
+        split at h
+        · rename_i ts' hts
+          cases h
+          obtain ⟨hl, hall⟩ := (ih ts').1 hts
+          refine ⟨by simp [hl], ?_⟩
+          intro p hp
+          simp only [List.zip_cons_cons, List.mem_cons] at hp
+          rcases hp with rfl | hp
+          · exact ht
+          · exact hall p hp
+        · cases h
+    · rintro ⟨hl, hall⟩
+      cases ts with
+      | nil => simp at hl
+      | cons t ts' =>
+        have ht : f s = .ok t := hall (s, t) (by simp)
+        have hrest : allOk f ss = .ok ts' :=
+          (ih ts').2 ⟨by simpa using hl, fun p hp => hall p (by simp [hp])⟩
+        rw [ht]; simp only []; rw [hrest]
+
+/-- the call raises exactly when some array is rejected -/
+theorem allOk_error_iff (f : Shape → Except Err Shape) (ss : List Shape) :
+    (∃ e, allOk f ss = .error e) ↔ ∃ s ∈ ss, ∃ e, f s = .error e := by
+  induction ss with
+  | nil => simp [allOk]
+  | cons s ss ih =>
+    rw [allOk_cons]
+    simp only [List.mem_cons, exists_eq_or_imp, ← ih]
+    cases hf : f s with
+    | error e => simp
+    | ok t =>
+      cases hr : allOk f ss with
+      | ok ts => simp
+      | error e => simp
+
 end Support
